@@ -479,7 +479,26 @@ def deadObjArgs (s : St) (vs : Nat) (items : List Val) : List Mi :=
         | none => false
       | _ => false)).flatMap (fun idx => [Mi.take (.item vs idx), Mi.free])
 
-/-- what call_out() does with the call in root k -/
+def sentsOf (s : St) (c : Nat) : List Nat :=
+  (List.range nSents).filter (fun k =>
+    match slotCell s (rSent k) with
+    | some (_, sc) => sc.tag == c
+    | none => false)
+
+/-- destruct_object(ob) called from inside a running call_out callback whose two arguments sit in the stack slots
+    `top`, `top + 1` (contents `a0`, `a1`): remove_object_from_stack releases and zeroes every stack slot holding the
+    object, its sentences are freed, it is marked and queued for destruct2 -/
+def destructInCallback (s : St) (ob top : Nat) (a0 a1 : Val) : List Mi :=
+  let onStack := (List.range (top - nFixed)).filter (fun i => s.roots[nFixed + i]? == some (.ptr ob))
+  onStack.flatMap (fun i => [Mi.take (.root (nFixed + i)), Mi.free])
+    ++ (if a0 == .ptr ob then [Mi.take (.root top), Mi.free] else [])
+    ++ (if a1 == .ptr ob then [Mi.take (.root (top + 1)), Mi.free] else [])
+    ++ (sentsOf s ob).flatMap (fun k => [Mi.take (.root (rSent k)), .free, .allocd (-2), .distinct (-1)])
+    ++ [.mark ob]
+
+/-- what call_out() does with the call in root k.  tag of the call record = the callback: 0 `cb` drops its arguments,
+    1 `cbs<k>` keeps the first one in variable k of the owner, 2 `cbe` raises an error (the arguments are popped by
+    the error recovery), 3 `cbd` destructs its own object -/
 def fireProg (s : St) (k : Nat) : List Mi :=
   match slotCell s (rCall k) with
   | none => []
@@ -491,20 +510,35 @@ def fireProg (s : St) (k : Nat) : List Mi :=
         if obc.destructed then [.take (.root (rCall k)), .free, .allocd (-1)]
         else
           let top := s.roots.length
+          let dead : Val → Bool := fun v => match v with
+            | .ptr a => (match s.heap[a]? with
+              | some ac => ac.kind == .obj && ac.destructed
+              | none => false)
+            | .num _ => false
+          let arg := fun (i : Nat) => match vsc.items[i]? with
+            | some v => if dead v then Val.num 0 else v
+            | none => Val.num 0
           deadObjArgs s vs vsc.items ++
           [.pushRoot, .take (.item vs 0), .put (.root top), .pushRoot, .take (.item vs 1), .put (.root (top + 1)),
            .take (.item cc 1), .free] ++
           (if ccell.tag == 1 then [.take (.item ob k), .free, .dup (.root top), .put (.item ob k)] else []) ++
+          (if ccell.tag == 3 then destructInCallback s ob top (arg 0) (arg 1) else []) ++
           [.take (.root (top + 1)), .free, .popRoot, .take (.root top), .free, .popRoot,
            .allocd (-1), .take (.root (rCall k)), .free]
       | _, _ => []
     | _ => []
 
-def sentsOf (s : St) (c : Nat) : List Nat :=
-  (List.range nSents).filter (fun k =>
-    match slotCell s (rSent k) with
-    | some (_, sc) => sc.tag == c
-    | none => false)
+/-- insertion into a list of (call cell, slot) sorted by cell index, newest (highest) first -/
+def insCall (x : Nat × Nat) : List (Nat × Nat) → List (Nat × Nat)
+  | [] => [x]
+  | y :: ys => if y.1 ≤ x.1 then x :: y :: ys else y :: insCall x ys
+
+/-- the order in which one sweep of call_out() runs the pending calls: new_call_out() inserts a call in front of
+    the calls that are due at the same time, so the newest call (the highest cell index) runs first -/
+def sweepOrder (s : St) : List Nat :=
+  (((List.range nCalls).filterMap (fun k => match s.roots[rCall k]? with
+    | some (.ptr c) => some (c, k)
+    | _ => none)).foldl (fun acc x => insCall x acc) []).map (·.2)
 
 /-- pointer items of a pack, highest index first -/
 def packPtrs (p : Nat) (items : List Val) : List (Nat × Nat) :=
@@ -820,7 +854,7 @@ def sweepFrom (s : St) : List Nat → M St
 def step (s : St) (op : Op) : Res :=
   match op with
   | .sweep =>
-    match sweepFrom s (List.range nCalls) with
+    match sweepFrom s (sweepOrder s) with
     | .ok s' => .ok s'
     | .error e => .fail e
   | .err _ _ => .ok s
